@@ -125,7 +125,18 @@ pub fn run(a: &Args, out: &mut Out) {
             }
             7 => {
                 // F_q^4
-                let (ya, yb) = (elem_bytes(&mut rng, &poolq, 4), elem_bytes(&mut rng, &poolq, 4));
+                let (mut ya, mut yb) = (elem_bytes(&mut rng, &poolq, 4), elem_bytes(&mut rng, &poolq, 4));
+                if k % 30 == 17 && !poolq.hi.is_empty() {
+                    // carry classes of sum_of_products<4>: every Montgomery residue just below q (or small, so that -2a is high)
+                    let pick = |rng: &mut StdRng, hi: bool| -> Vec<u8> { let l = if hi { &poolq.hi } else { &poolq.lo }; l[rng.gen_range(0..l.len())].clone() };
+                    ya.clear();
+                    yb.clear();
+                    for j in 0..4 {
+                        let high_a = j == 3 || rng.gen::<bool>();
+                        ya.extend_from_slice(&pick(&mut rng, high_a));
+                        yb.extend_from_slice(&pick(&mut rng, true));
+                    }
+                }
                 // every fourth round: b = the conjugate of a over F_q^2 (c1 negated): the v-coefficient of the product vanishes
                 let yb = if k % 40 == 7 {
                     let mut t = ya.clone();
